@@ -1,6 +1,7 @@
 """C16 -- the query parser accepts any input and honours the documented language."""
 
 import ast
+import re
 
 from ..report import rule
 from .. import pm, norm, cfg as cfgmod, guards
@@ -301,3 +302,151 @@ def c16_r5(ctx):
     ok = PA.has(sts, "q = nodes.query(self)") and PA.has(sts, "q = query.NullQuery") and PA.has(sts, "q = q.normalize()") and \
         len(rets) == 1 and PA.eq(rets[0], "q")
     ctx.ob(pr, ok, "parse() returns NullQuery for nothing and normalizes the result")
+
+
+FIELD_ANALYSIS = ("process_text", "tokenize")
+
+
+def _field_preconditions(prog):
+    """what FieldType.tokenize / process_text need to be true of the field so as not to raise: derived from their own
+    `if not self.<attr>: raise ...` guards (process_text calls tokenize, so it inherits tokenize's)."""
+    ft = prog.cls("fields.FieldType")
+    need = {}
+    for m in FIELD_ANALYSIS:
+        f = ft.methods.get(m)
+        if f is None:
+            raise AnalysisError("fields.FieldType.%s vanished" % m)
+        attrs = set()
+        fa = guards.Facts(f)
+        for n in fa.g.nodes:
+            if n.kind == "raise_stmt":
+                for (p, t) in fa.at(n) or ():
+                    if p == "F" and t.startswith("self.") and t.count(".") == 1:
+                        attrs.add(t.split(".")[1])
+        need[m] = attrs
+    if "tokenize" in [norm.call_name(c) for c in norm.calls_in(ft.methods["process_text"].node)]:
+        need["process_text"] = need["process_text"] | need["tokenize"]
+    return need
+
+
+@rule("C16", "R6", "K2", "parser code calls into a field's text analysis only when the field can analyse, or inside a catch-all",
+      min_instances=3,
+      clause="FieldType.tokenize raises a bare Exception when the field has no analyzer and process_text when it has no "
+             "format (STORED, BOOLEAN, NUMERIC ... fields): every call of field.tokenize / field.process_text / "
+             "get_single_text(field, ...) in whoosh/qparser is dominated by tests establishing those attributes, or sits in "
+             "a try whose handler catches Exception and yields an error query.")
+def c16_r6(ctx):
+    prog = ctx.prog
+    need = _field_preconditions(prog)
+    ctx.note("preconditions derived from FieldType: %s" % {k: sorted(v) for k, v in need.items()})
+    n = 0
+    for f in prog.functions.values():
+        if not f.module.name.startswith("whoosh.qparser") or f.module.name.endswith("dateparse"):
+            continue
+        if f.short == "qparser.common.get_single_text":
+            continue  # the wrapper itself: its callers are checked
+        fa = None
+        for c in norm.calls_in(f.node):
+            nm = norm.call_name(c)
+            if nm in FIELD_ANALYSIS and isinstance(c.func, ast.Attribute):
+                recv = norm.canon(c.func.value)
+                req = need[nm]
+            elif nm == "get_single_text" and c.args:
+                recv = norm.canon(c.args[0])
+                req = need["process_text"]
+            else:
+                continue
+            if "field" not in recv.lower():
+                continue
+            n += 1
+            ctx.saw(f)
+            if fa is None:
+                fa = guards.Facts(f)
+            node = None
+            for cn in fa.g.nodes:
+                for frag in cfgmod.node_exprs(cn):
+                    if any(x is c for x in ast.walk(frag)):
+                        node = cn
+            facts = (fa.at(node) if node is not None else None) or frozenset()
+            have = set(t.split(".", 1)[1] for (p, t) in facts if p == "T" and t.startswith(recv + ".") and t.count(".") == recv.count(".") + 1)
+            fenced = False
+            for t_ in _enclosing_tries(f.node, c):
+                for h in t_.handlers:
+                    if any(x in CATCH_ALL for x in _handler_names(h)):
+                        body = " ".join(norm.stmt_text(s) for s in h.body)
+                        fenced = fenced or "error_query(" in body or "QueryParserError(" in body
+            ok = fenced or req <= have
+            ctx.ob(f, ok, "%s on %s cannot raise a non-parser exception" % (nm, recv),
+                   detail="needs %s.%s to be set, known here: %s; not inside try/except Exception -> error query: a query on a field "
+                          "without analyzer/format makes parse() raise a bare Exception" % (recv, sorted(req - have), sorted(have)) if not ok else "",
+                   loc=ctx.nodeloc(f, c))
+    if n < 3:
+        raise AnalysisError("only %d field-analysis call sites found in qparser" % n)
+
+
+@rule("C16", "R7", "K2", "syntax nodes build queries without assuming a well-formed tree",
+      min_instances=2,
+      clause="In the query() methods of the parser's group nodes, self.nodes[<constant>] is read only where a test has "
+             "established that the group is non-empty / has that many nodes (operators next to each other leave empty "
+             "and one-element groups behind: `NOT NOT a`, `a ANDMAYBE ANDNOT b`); no `assert` guards user-reachable "
+             "shapes; a sub-query that came back None is not wrapped.")
+def c16_r7(ctx):
+    prog = ctx.prog
+    base = prog.cls("qparser.syntax.SyntaxNode")
+    n = 0
+    for cls in [base] + prog.subclasses(base, strict=True):
+        f = cls.methods.get("query")
+        if f is None or is_abstract_body(f):
+            continue
+        subs = [x for x in ast.walk(f.node) if isinstance(x, ast.Subscript) and norm.canon(x.value) == "self.nodes"
+                and isinstance(x.slice, ast.Constant) and isinstance(x.slice.value, int)]
+        asserts = [x for x in ast.walk(f.node) if isinstance(x, ast.Assert)]
+        if not subs and not asserts:
+            continue
+        n += 1
+        ctx.saw(f)
+        for a_ in asserts:
+            ctx.ob(f, False, "no assert in query(): assert %s" % norm.canon(a_.test),
+                   detail="an AssertionError (not a QueryParserError) escapes QueryParser.parse() for inputs that reach this shape",
+                   loc=ctx.nodeloc(f, a_))
+        fa = guards.Facts(f)
+        for x in subs:
+            node = None
+            for cn in fa.g.nodes:
+                for frag in cfgmod.node_exprs(cn):
+                    if any(y is x for y in ast.walk(frag)):
+                        node = cn
+            facts = (fa.at(node) if node is not None else None) or frozenset()
+            k = x.slice.value
+            need = k + 1 if k >= 0 else -k
+            ok = False
+            for (p, t) in facts:
+                if "self.nodes" not in t:
+                    continue
+                if p == "T" and t == "self.nodes" and need <= 1:
+                    ok = True
+                m = re.match(r"^\(len\(self\.nodes\) < (\d+)\)$", t)
+                if m and p == "F" and int(m.group(1)) >= need:
+                    ok = True
+                m = re.match(r"^\((\d+) < len\(self\.nodes\)\)$", t)
+                if m and p == "T" and int(m.group(1)) + 1 >= need:
+                    ok = True
+                m = re.match(r"^\((\d+) == len\(self\.nodes\)\)$|^\(len\(self\.nodes\) == (\d+)\)$", t)
+                if m and p == "T" and int(m.group(1) or m.group(2)) >= need:
+                    ok = True
+            ctx.ob(f, ok, "self.nodes[%d] is read only after the group's size was tested" % k,
+                   detail="facts here: %s -- IndexError for a group left with %d node(s)" % (sorted(facts), need - 1) if not ok else "",
+                   loc=ctx.nodeloc(f, x))
+    if n < 2:
+        raise AnalysisError("only %d group query() methods index self.nodes" % n)
+    # a None sub-query is never wrapped: Wrapper.query builds qclass(q) only when q is truthy
+    wr = prog.method("qparser.syntax.Wrapper", "query", inherited=False)
+    fa = guards.Facts(wr)
+    for cn in fa.g.nodes:
+        for frag in cfgmod.node_exprs(cn):
+            for c in norm.calls_in(frag):
+                if norm.canon(c.func) == "self.qclass" and c.args and isinstance(c.args[0], ast.Name):
+                    facts = fa.at(cn) or frozenset()
+                    v = c.args[0].id
+                    ok = ("T", v) in facts or ("F", "(None is %s)" % v) in facts
+                    ctx.ob(wr, ok, "self.qclass(%s) is built only for a sub-query that exists" % v, loc=ctx.nodeloc(wr, c))
